@@ -85,11 +85,13 @@ PathVars(steps, i) ==
   ELSE {PText(SubSeq(steps, 1, i), 1, "")}
        \cup (IF "x" \in DOMAIN steps[i] THEN VarsIn(steps[i].x) ELSE {})
        \cup PathVars(steps, i + 1)
-VarsIn(e) == CASE e.k = "c"    -> {}
+VarsIn(e) == CASE e.k \in {"c", "now"} -> {}
                [] e.k = "p"    -> PathVars(e.path, 1)
                [] e.k = "not"  -> VarsIn(e.e)
                [] e.k = "bin"  -> VarsIn(e.l) \cup VarsIn(e.r)
                [] e.k = "call" -> PathVars(e.recv, 1) \cup UNION {VarsIn(e.args[j]) : j \in DOMAIN e.args}
+               [] e.k = "sel"  -> VarsIn(e.base) \cup VarsIn(e.i)
+               [] e.k = "mem"  -> VarsIn(e.base)
                [] OTHER        -> {}
 \* an invalidation event concerning the counted atom: an assignment to a variable occurring in its receiver
 \* or arguments, or a Forget/Changed naming one of them
@@ -211,7 +213,7 @@ ExecEv ==
 
 \* a real invocation of an instrumented fact method (an atom served from the memo produces no event)
 CallEv == /\ Is("call")
-          /\ IF hOn /\ T.m \in {"Heavy", "HeavyB"}
+          /\ IF hOn /\ T.m \in {"Heavy", "HeavyB", "HeavyV", "HeavyP"}
              THEN /\ hUsed' = hUsed + 1
                   /\ Check(hUsed + 1 <= hLimit, "C13-evaluated-again-without-invalidation")
              ELSE UNCHANGED <<hUsed, viol>>
